@@ -308,8 +308,76 @@ fn run_deep(ctx: &Ctx, lg_k: u8, bound: usize, max_len: usize, stride1: usize, s
     }
 }
 
+/// Exception-subset family (aux map growth and rehash): for every subset S of the slots with
+/// |S| in 4..=max (so the 4-slot aux table doubles at least once), in ascending and descending
+/// order, over a base of cur_min 0 or 1: give each slot of S an exception value, then raise
+/// each of them again (the lookup must find every entry after every rehash), then shift
+/// cur_min with the aux map live. Full oracle at the end of each run, light oracle per step.
+fn run_exception_subsets(ctx: &Ctx, lg_k: u8, max: usize) {
+    let k = 1u32 << lg_k;
+    let firsts: Vec<u32> = (0..k).collect();
+    let runs: u64 = firsts
+        .par_iter()
+        .map(|&first| {
+            let mut n = 0u64;
+            // subsets in lexicographic order with smallest element `first`
+            let mut stack: Vec<Vec<u32>> = vec![vec![first]];
+            while let Some(sub) = stack.pop() {
+                if sub.len() < max {
+                    for nx in (sub.last().unwrap() + 1)..k {
+                        let mut s2 = sub.clone();
+                        s2.push(nx);
+                        stack.push(s2);
+                    }
+                }
+                if sub.len() < 4 {
+                    continue;
+                }
+                for desc in [false, true] {
+                    for base in [0u8, 1] {
+                        let order: Vec<u32> = if desc { sub.iter().rev().copied().collect() } else { sub.clone() };
+                        let mut cs: Vec<u32> = vec![];
+                        if base > 0 {
+                            cs.extend((0..k).map(|s| coupon(s, base)));
+                        }
+                        cs.extend(order.iter().map(|&s| coupon(s, base + 17 + (s % 3) as u8)));
+                        cs.extend(order.iter().map(|&s| coupon(s, base + 30 + (s % 2) as u8)));
+                        // raise every register to base+1: the cur_min shift rebuilds the aux map
+                        cs.extend((0..k).map(|s| coupon(s, base + 1)));
+                        cs.extend(order.iter().map(|&s| coupon(s, 50)));
+                        let mut t = Trio::new(lg_k);
+                        let mut dead = false;
+                        for (i, &c) in cs.iter().enumerate() {
+                            let vs = t.offer_light(c);
+                            if !vs.is_empty() {
+                                hllm::report(ctx, vs, lg_k, &[], &cs[..=i]);
+                                dead = true;
+                                break;
+                            }
+                        }
+                        if !dead {
+                            let vs = t.check_full();
+                            if !vs.is_empty() {
+                                hllm::report(ctx, vs, lg_k, &[], &cs);
+                            }
+                        }
+                        n += cs.len() as u64;
+                    }
+                }
+            }
+            n
+        })
+        .sum();
+    ctx.add_states(runs);
+    ctx.add_transitions(runs);
+    ctx.count(&format!("exception-subset family lg_k={lg_k}: coupons offered (subsets of size 4..={max}, 2 orders, 2 bases)"), runs);
+}
+
 pub fn explore(ctx: &Ctx, obs: &Observer) {
     let tier = ctx.tier;
+    for (lg_k, max) in tier.pick(vec![(4u8, 6usize), (5, 4)], vec![(4, 9), (5, 5), (6, 4)]) {
+        run_exception_subsets(ctx, lg_k, max);
+    }
     let mut scs = scopes(tier);
     if ctx.reduced {
         for sc in scs.iter_mut() {
